@@ -36,13 +36,19 @@ Qed.
 Lemma spec_flat_pt : forall p ids pre hard soft,
   spec_addrs_port ids pre (sport_of p) = flat_map port_reports (flat_pt ids pre hard soft p).
 Proof.
-  induction p as [nm arr d|nm enum ptr sw sub IHs] using pt_ind2; intros ids pre hard soft.
+  induction p as [nm arr d|nm enum ptr sw sub IHs|nm sw] using pt_ind2; intros ids pre hard soft.
+  3:{ cbn [sport_of spec_addrs_port flat_pt flat_map]. rewrite app_nil_r. unfold port_reports.
+      cbn [f_id f_port]. change [Lit nm] with (leaf_segs nm None). rewrite expand_leaf, map_map.
+      change (p_len (leaf_port (pre ++ nm) None aux_ld)) with 1%nat.
+      apply map_ext. intros k. rewrite elem_addr_leaf. reflexivity. }
   - cbn [sport_of spec_addrs_port flat_pt flat_map]. rewrite app_nil_r. unfold port_reports.
     cbn [f_id f_port]. rewrite expand_leaf, map_map.
     change (p_len (leaf_port (pre ++ nm) arr d)) with (match arr with Some n => n | None => 1%nat end).
     apply map_ext. intros k. rewrite elem_addr_leaf. reflexivity.
   - cbn [sport_of]. rewrite spec_addrs_subtree, flat_pt_sub, flat_map_flat_map.
     apply flat_map_ext. intros x.
+    generalize ((soft ++ olist (option_map (sw_addr pre (sub_name nm enum) x) sw)) ++ self_soft (pre ++ x) sub).
+    intros soft'.
     generalize 0%nat. induction sub as [|q r IHr]; intros i; [reflexivity|].
     inversion IHs as [|? ? Hq Hr]; subst.
     cbn [map spec_table flat_tbl]. rewrite flat_map_app, <- (IHr Hr). f_equal. apply Hq.
@@ -108,9 +114,9 @@ Qed.
 (* C09 proves the pruning step by step (C09_pruning_enumerated: each expansion of a
    sub-tree name is skipped exactly when the oracle reports a NULL object or a false
    'enabled by' for that address; for a skipped expansion whose object exists the walker is
-   still applied to the enabling port when that port stands inside: skipped_reports).  Here
-   the steps are put together for whole trees; the table's own "self:" port (rSelf) is the
-   form left out (o_selfoff = false). *)
+   still applied to the enabling port when that port stands inside: skipped_reports; a table
+   whose "self:" port is disabled is not looked at, the walker is applied to the port it
+   names: self_toggle).  Here the steps are put together for whole trees. *)
 Definition skipped_spec (o : oracle) (ids : list nat) (q : NameModel.port) (b : str) : list report :=
   if negb (o_null o b) && o_disabled o b then
     match sub_toggle q b with
@@ -127,12 +133,19 @@ Proof.
   destruct (sub_toggle q b) as [[j a]|]; [|reflexivity]. rewrite <- app_assoc. reflexivity.
 Qed.
 
+Definition spec_self (ids : list nat) (t : list NameModel.port) (b : str) : list report :=
+  match self_toggle t b with
+  | Some (j, a) => [(ids ++ [j], a)]
+  | None => []
+  end.
+
 Fixpoint spec_pruned_port (o : oracle) (ids : list nat) (prefix : str) (p : sport) {struct p} : list report :=
   match p with
   | SPort segs _ _ None => map (fun a => (ids, prefix ++ a)) (expand segs)
   | SPort segs _ _ (Some l) =>
       flat_map (fun a =>
         if pruned (Some o) (prefix ++ a) then skipped_spec o ids (render_port p) (prefix ++ a) else
+        if o_selfoff o (prefix ++ a) then spec_self ids (map render_port l) (prefix ++ a) else
         (fix go (l : list sport) (i : nat) : list report :=
            match l with
            | [] => []
@@ -146,36 +159,70 @@ Fixpoint spec_pruned_table (o : oracle) (ids : list nat) (pre : str) (l : list s
   | q :: r => spec_pruned_port o (ids ++ [i]) pre q ++ spec_pruned_table o ids pre r (S i)
   end.
 
+(* walk_ports on the table l at address pre *)
+Definition spec_pruned_tableS (o : oracle) (ids : list nat) (pre : str) (l : list sport) : list report :=
+  if o_selfoff o pre then spec_self ids (map render_port l) pre else spec_pruned_table o ids pre l 0%nat.
+
 Lemma spec_pruned_subtree : forall o ids pre sg a m l,
   spec_pruned_port o ids pre (SPort sg a m (Some l)) =
   flat_map (fun x => if pruned (Some o) (pre ++ x)
                      then skipped_spec o ids (render_port (SPort sg a m (Some l))) (pre ++ x)
-                     else spec_pruned_table o ids (pre ++ x) l 0%nat) (expand sg).
+                     else spec_pruned_tableS o ids (pre ++ x) l) (expand sg).
 Proof.
   intros. cbn [spec_pruned_port]. apply flat_map_ext. intros x.
-  destruct (pruned (Some o) (pre ++ x)); [reflexivity|].
+  destruct (pruned (Some o) (pre ++ x)); [reflexivity|]. unfold spec_pruned_tableS.
+  destruct (o_selfoff o (pre ++ x)); [reflexivity|].
   generalize 0%nat. induction l as [|q r IH]; intros i; [reflexivity|].
   cbn [spec_pruned_table]. rewrite <- IH. reflexivity.
 Qed.
 
-Theorem walk_pruned_wf : forall o, (forall b, o_selfoff o b = false) ->
-  forall p ids buf sg a m l,
-  p = SPort sg a m (Some l) -> Forall sport_wf l -> buf <> [] ->
-  walk_port (Some o) ids (render_port p) buf = WOk (spec_pruned_table o ids buf l 0%nat) buf.
+(* wherever the oracle can answer "the self: port is disabled", the table has such a port
+   and it names a port of the table (otherwise walk_ports fails an assertion) *)
+Fixpoint selfs_ok (o : oracle) (prefix : str) (p : sport) {struct p} : Prop :=
+  match p with
+  | SPort _ _ _ None => True
+  | SPort segs _ _ (Some l) =>
+      forall x, In x (expand segs) ->
+        (o_selfoff o (prefix ++ x) = true -> self_toggle (map render_port l) (prefix ++ x) <> None) /\
+        (fix all (l : list sport) : Prop :=
+           match l with [] => True | q :: r => selfs_ok o (prefix ++ x) q /\ all r end) l
+  end.
+Definition tbl_ok (o : oracle) (pre : str) (l : list sport) : Prop :=
+  (o_selfoff o pre = true -> self_toggle (map render_port l) pre <> None) /\ Forall (selfs_ok o pre) l.
+
+Lemma selfs_all_forall : forall o pre l,
+  (fix all (l : list sport) : Prop := match l with [] => True | q :: r => selfs_ok o pre q /\ all r end) l <->
+  Forall (selfs_ok o pre) l.
 Proof.
-  intros o Hself. induction p as [sg0 a0 m0 s0 IHs] using sport_ind2.
-  intros ids buf sg a m l E Hl Hb. inversion E; subst. clear E.
-  cbn [render_port walk_port]. rewrite (norm_nonempty buf Hb), Hself.
+  intros o pre. induction l as [|x r IH].
+  - split; intros _; [constructor | exact I].
+  - split; intros H.
+    + destruct H as [H1 H2]. constructor; [exact H1 | apply IH; exact H2].
+    + inversion H as [|? ? H1 H2]; subst. split; [exact H1 | apply IH; exact H2].
+Qed.
+
+Theorem walk_pruned_wf : forall o p ids buf sg a m l,
+  p = SPort sg a m (Some l) -> Forall sport_wf l -> buf <> [] -> tbl_ok o buf l ->
+  walk_port (Some o) ids (render_port p) buf = WOk (spec_pruned_tableS o ids buf l) buf.
+Proof.
+  intros o. induction p as [sg0 a0 m0 s0 IHs] using sport_ind2.
+  intros ids buf sg a m l E Hl Hb [Hst Hsok]. inversion E; subst. clear E.
+  cbn [render_port walk_port]. rewrite (norm_nonempty buf Hb). unfold spec_pruned_tableS.
+  destruct (o_selfoff o buf) eqn:Eself.
+  { unfold spec_self. specialize (Hst eq_refl).
+    destruct (self_toggle (map render_port l) buf) as [[j a']|]; [reflexivity | contradiction]. }
+  clear Hst.
   assert (Hloop : forall l' i out0,
-            Forall sport_wf l' ->
+            Forall sport_wf l' -> Forall (selfs_ok o buf) l' ->
             Forall (fun q => forall ids buf sg a m l, q = SPort sg a m (Some l) -> Forall sport_wf l -> buf <> [] ->
-                       walk_port (Some o) ids (render_port q) buf = WOk (spec_pruned_table o ids buf l 0%nat) buf) l' ->
+                       tbl_ok o buf l ->
+                       walk_port (Some o) ids (render_port q) buf = WOk (spec_pruned_tableS o ids buf l) buf) l' ->
             loop_ports (fun q ids' b => walk_port (Some o) ids' q b) (Some o) ids (length buf)
                        (map render_port l') i out0 buf
             = WOk (out0 ++ spec_pruned_table o ids buf l' i) buf).
-  { induction l' as [|q r IHr]; intros i out0 Hpl HIH.
+  { induction l' as [|q r IHr]; intros i out0 Hpl Hps HIH.
     - cbn [map loop_ports spec_pruned_table]. rewrite app_nil_r. reflexivity.
-    - inversion Hpl as [|? ? Hq Hr]; subst.
+    - inversion Hpl as [|? ? Hq Hr]; subst. inversion Hps as [|? ? Hqs Hrs]; subst.
       inversion HIH as [|? ? HIq HIr]; subst.
       cbn [map loop_ports spec_pruned_table].
       destruct q as [sg1 a1 m1 s1]. cbn [sport_wf] in Hq. destruct Hq as [Ha Hq].
@@ -189,7 +236,7 @@ Proof.
         set (ws := map (fun x : list Z => buf ++ x) (expand (comps_segs cs))).
         rewrite (run_all_const _ (fun b => if pruned (Some o) b
                                            then skipped_spec o (ids ++ [i]) (render_port (SPort (comps_segs cs) a1 m1 (Some l1))) b
-                                           else spec_pruned_table o (ids ++ [i]) b l1 0%nat) ws).
+                                           else spec_pruned_tableS o (ids ++ [i]) b l1) ws).
         * destruct (last_extends buf (expand (comps_segs cs))) as [x Hx].
           unfold ws. rewrite Hx.
           replace (length (buf ++ x) <? length buf)%nat with false
@@ -197,13 +244,15 @@ Proof.
           rewrite firstn_app_exact. rewrite IHr by assumption.
           rewrite <- app_assoc. f_equal. f_equal. cbn [app].
           rewrite spec_pruned_subtree. rewrite flat_map_map. reflexivity.
-        * intros w Hw. unfold ws in Hw. apply in_map_iff in Hw. destruct Hw as [x [<- _]].
+        * intros w Hw. unfold ws in Hw. apply in_map_iff in Hw. destruct Hw as [x [<- Hx]].
           destruct (pruned (Some o) (buf ++ x)) eqn:Ep.
           -- f_equal. apply skipped_reports_spec.
           -- change (Port (flatten (comps_segs cs) ++ a1) m1 (Some (map render_port l1)))
                with (render_port (SPort (comps_segs cs) a1 m1 (Some l1))).
+             cbn [selfs_ok] in Hqs. destruct (Hqs x Hx) as [Hsx Hallx].
              apply (HIq (ids ++ [i]) (buf ++ x) (comps_segs cs) a1 m1 l1 eq_refl (wf_all_forall _ Hsub)).
-             intros E0. apply app_eq_nil in E0. destruct E0. contradiction.
+             ++ intros E0. apply app_eq_nil in E0. destruct E0. contradiction.
+             ++ split; [exact Hsx | apply selfs_all_forall; exact Hallx].
       + (* a leaf: as without a runtime object *)
         cbn [render_port]. unfold step_port.
         assert (Hh : has_char 35 (render_name sg1 a1) = has_enum sg1).
@@ -223,7 +272,7 @@ Proof.
           rewrite firstn_app_exact. rewrite IHr by assumption.
           rewrite <- app_assoc. f_equal.
           cbn [spec_pruned_port]. rewrite (expand_enumfree sg1 Ee). reflexivity. }
-  specialize (Hloop l 0%nat [] Hl). cbn [app] in Hloop. apply Hloop.
+  specialize (Hloop l 0%nat [] Hl Hsok). cbn [app] in Hloop. apply Hloop.
   eapply Forall_impl; [|exact IHs]. intros q Hq. exact Hq.
 Qed.
 
@@ -232,7 +281,8 @@ Qed.
 (* ======================================================================== *)
 Lemma dirs_pt_sub : forall dir nm enum ptr sw sub,
   dirs_pt dir (PSub nm enum ptr sw sub) =
-  flat_map (fun x => (dir ++ x, option_map (fun g => dir ++ g) ptr, option_map (sw_addr dir (sub_name nm enum) x) sw)
+  flat_map (fun x => (dir ++ x, option_map (fun g => dir ++ g) ptr, option_map (sw_addr dir (sub_name nm enum) x) sw,
+                      option_map (fun v => (dir ++ x) ++ v) (self_sw sub))
                      :: dirs_tbl (dir ++ x) sub) (expand (sub_segs nm enum)).
 Proof.
   intros. cbn [dirs_pt]. apply flat_map_ext. intros x. f_equal.
@@ -256,7 +306,7 @@ Lemma flat_pt_incl : forall p ids dir hard soft f,
   In f (flat_pt ids dir hard soft p) ->
   incl hard (f_hard f) /\ (forall g, In g soft -> g <> p_path (f_port f) -> In g (f_soft f)).
 Proof.
-  induction p as [nm arr d|nm enum ptr sw sub IHs] using pt_ind2; intros ids dir hard soft f Hin.
+  induction p as [nm arr d|nm enum ptr sw sub IHs|nm sw] using pt_ind2; intros ids dir hard soft f Hin.
   - cbn [flat_pt] in Hin. destruct Hin as [<-|[]]. cbn [f_hard f_soft f_port leaf_port p_path].
     split; [apply incl_refl|]. intros g Hg Hne. unfold soft_of. apply filter_In. split; [exact Hg|].
     destruct (str_eqb g (dir ++ nm)) eqn:E; [|reflexivity]. apply streqb_true in E. contradiction.
@@ -264,7 +314,10 @@ Proof.
     destruct (in_flat_tbl _ _ _ _ _ _ _ Hin) as (j & q & Eq & Hq).
     rewrite Forall_forall in IHs. destruct (IHs q (nth_error_In _ _ Eq) _ _ _ _ _ Hq) as [H1 H2].
     split; [intros g Hg; apply H1; apply in_or_app; left; exact Hg|].
-    intros g Hg Hne. apply H2; [apply in_or_app; left; exact Hg | exact Hne].
+    intros g Hg Hne. apply H2; [apply in_or_app; left; apply in_or_app; left; exact Hg | exact Hne].
+  - cbn [flat_pt] in Hin. destruct Hin as [<-|[]]. cbn [f_hard f_soft f_port leaf_port p_path].
+    split; [apply incl_refl|]. intros g Hg Hne. unfold soft_of. apply filter_In. split; [exact Hg|].
+    destruct (str_eqb g (dir ++ nm)) eqn:E; [|reflexivity]. apply streqb_true in E. contradiction.
 Qed.
 
 Lemma flat_tbl_incl : forall l ids dir hard soft i f,
@@ -279,12 +332,13 @@ Qed.
 Lemma flat_pt_prefix : forall p ids dir hard soft f,
   In f (flat_pt ids dir hard soft p) -> exists r, p_path (f_port f) = dir ++ r.
 Proof.
-  induction p as [nm arr d|nm enum ptr sw sub IHs] using pt_ind2; intros ids dir hard soft f Hin.
+  induction p as [nm arr d|nm enum ptr sw sub IHs|nm sw] using pt_ind2; intros ids dir hard soft f Hin.
   - cbn [flat_pt] in Hin. destruct Hin as [<-|[]]. exists nm. reflexivity.
   - rewrite flat_pt_sub in Hin. apply in_flat_map in Hin. destruct Hin as (x & _ & Hin).
     destruct (in_flat_tbl _ _ _ _ _ _ _ Hin) as (j & q & Eq & Hq).
     rewrite Forall_forall in IHs. destruct (IHs q (nth_error_In _ _ Eq) _ _ _ _ _ Hq) as [r Hr].
     exists (x ++ r). rewrite Hr, app_assoc. reflexivity.
+  - cbn [flat_pt] in Hin. destruct Hin as [<-|[]]. exists nm. reflexivity.
 Qed.
 
 Lemma flat_tbl_prefix : forall l ids dir hard soft i f,
@@ -350,8 +404,19 @@ Proof.
   specialize (H c Hc). subst c. discriminate.
 Qed.
 
-(* port_is_enabled on the metadata rEnabledBy wrote: the lookup gives the property (C17),
-   the comparison with the port's name tells the two forms apart *)
+(* port_is_enabled on the metadata rEnabledBy wrote: the lookup gives the property (C17) *)
+Lemma enabled_by_lookup : forall g, MetaModel.nonul g ->
+  exists p, MetaModel.meta (MetaModel.render [(WalkModel.enabled_by, Some g)]) = Some p /\
+            MetaModel.lookup p WalkModel.enabled_by = Some (Some g).
+Proof.
+  intros g Hg.
+  destruct (MetaProofs.lookup_render WalkModel.enabled_by (Some g) [] WalkModel.enabled_by) as (p & Hm & Hl & _).
+  { constructor; [|constructor]. split; [|exact Hg]. cbn [fst].
+    split; [discriminate|]. split; [repeat constructor; discriminate | discriminate]. }
+  exists p. split; [exact Hm|]. rewrite Hl. reflexivity.
+Qed.
+
+(* ... the comparison with the port's name tells the two forms apart *)
 Lemma sub_toggle_meta : forall qn g subp b, MetaModel.nonul g ->
   sub_toggle (Port qn (Some (MetaModel.render [(WalkModel.enabled_by, Some g)])) (Some subp)) b =
   match subport_split qn g with
@@ -360,11 +425,44 @@ Lemma sub_toggle_meta : forall qn g subp b, MetaModel.nonul g ->
   end.
 Proof.
   intros qn g subp b Hg. unfold sub_toggle.
-  destruct (MetaProofs.lookup_render WalkModel.enabled_by (Some g) [] WalkModel.enabled_by) as (p & Hm & Hl & _).
-  { constructor; [|constructor]. split; [|exact Hg]. cbn [fst].
-    split; [discriminate|]. split; [repeat constructor; discriminate | discriminate]. }
+  destruct (enabled_by_lookup g Hg) as (p & Hm & Hl).
   match goal with |- context [MetaModel.meta ?X] => replace (MetaModel.meta X) with (Some p) by (symmetry; exact Hm) end.
   rewrite Hl. reflexivity.
+Qed.
+
+Lemma inner_ok_leaf : forall l e, inner_ok l e = true ->
+  exists j d, PathModel.index_op (map render_port (map sport_of l)) e = Some j /\ nth_error l j = Some (PLeaf e None d).
+Proof.
+  intros l e H. unfold inner_ok, sports_of in H.
+  destruct (PathModel.index_op (map render_port (map sport_of l)) e) as [j|]; [|discriminate H].
+  destruct (nth_error l j) as [[nm' [n|] d'|nm' enum' ptr' sw' sub'|nm' sw']|] eqn:Ej; try discriminate H.
+  apply andb_true_iff in H. destruct H as [Hname _]. apply streqb_true in Hname. subst nm'.
+  exists j, d'. split; [reflexivity | exact Ej].
+Qed.
+
+(* rSelf(.., rEnabledBy(x)): the port walk_ports is applied to while x is off *)
+Lemma self_toggle_ok : forall l x b, self_sw l = Some x -> self_ok l = true ->
+  exists j d, nth_error l j = Some (PLeaf x None d) /\
+              self_toggle (map render_port (map sport_of l)) b = Some (j, b ++ x).
+Proof.
+  intros l x b Hsw Hok. unfold self_ok in Hok. rewrite Hsw in Hok.
+  apply andb_true_iff in Hok. destruct Hok as [Hok Hidx]. apply andb_true_iff in Hok. destruct Hok as [Hnul Hin].
+  destruct (inner_ok_leaf l x Hin) as (j & d & Ej & Enj). exists j, d. split; [exact Enj|].
+  unfold sports_of in Hidx. unfold self_toggle.
+  destruct (PathModel.index_op (map render_port (map sport_of l)) self_key) as [i|]; [|discriminate Hidx].
+  rewrite !nth_error_map.
+  destruct (nth_error l i) as [[nm' arr' d'|nm' enum' ptr' sw' sub'|nm' [x'|]]|]; try discriminate Hidx.
+  apply andb_true_iff in Hidx. destruct Hidx as [_ Hx]. apply streqb_true in Hx. subst x'.
+  cbn [option_map sport_of render_port sub_meta].
+  destruct (enabled_by_lookup x (nonul_b_nonul x Hnul)) as (p & Hm & Hl).
+  match goal with |- context [MetaModel.meta ?X] => replace (MetaModel.meta X) with (Some p) by (symmetry; exact Hm) end.
+  rewrite Hl, Ej. reflexivity.
+Qed.
+
+Lemma dirs_tbl_in : forall l dir p, In p l -> incl (dirs_pt dir p) (dirs_tbl dir l).
+Proof.
+  induction l as [|q r IH]; intros dir p Hp e He; [contradiction|]. cbn [dirs_tbl]. apply in_or_app.
+  destruct Hp as [->|Hp]; [left; exact He | right; exact (IH dir p Hp e He)].
 Qed.
 
 Definition live_f (a : app) (s : state) (f : fport) : bool :=
@@ -392,13 +490,15 @@ Section Pruned.
   Hypothesis Hnd : NoDup (map dir_addr ds).
   Let o := oracle_of a ds s.
 
-  Lemma oracle_dir : forall b ptr sw, In (b, ptr, sw) ds ->
+  Lemma oracle_dir : forall b ptr sw self, In (b, ptr, sw, self) ds ->
     o_null o b = negb (forallb (sw_on a s) (olist ptr)) /\
-    o_disabled o b = negb (forallb (sw_on a s) (olist sw)).
+    o_disabled o b = negb (forallb (sw_on a s) (olist sw)) /\
+    o_selfoff o b = negb (forallb (sw_on a s) (olist self)).
   Proof.
-    intros b ptr sw Hin. unfold o, oracle_of. cbn [o_null o_disabled].
-    pose proof (dir_find_nodup ds (b, ptr, sw) Hnd Hin) as Hf. cbn [dir_addr fst] in Hf. rewrite Hf.
-    destruct ptr as [g|]; destruct sw as [g'|]; cbn [olist forallb]; rewrite ?andb_true_r; split; reflexivity.
+    intros b ptr sw self Hin. unfold o, oracle_of. cbn [o_null o_disabled o_selfoff].
+    pose proof (dir_find_nodup ds (b, ptr, sw, self) Hnd Hin) as Hf. cbn [dir_addr fst] in Hf. rewrite Hf.
+    destruct ptr as [g|]; destruct sw as [g'|]; destruct self as [g''|]; cbn [olist forallb];
+      rewrite ?andb_true_r; repeat split; reflexivity.
   Qed.
 
   (* below a toggle that is off nothing is live but (possibly) the toggle itself *)
@@ -418,7 +518,8 @@ Section Pruned.
     rewrite E, andb_false_r. reflexivity.
   Qed.
 
-  (* the inner switch of a sub-tree is off: of the sub-table only the switch is live *)
+  (* the inner switch of a sub-tree / the switch of the table's rSelf is off: of the table
+     only the switch is live *)
   Lemma only_switch_live : forall l ids dir hard soft i j e d,
     nth_error l j = Some (PLeaf e None d) ->
     In (dir ++ e) soft -> sw_on a s (dir ++ e) = false ->
@@ -443,13 +544,64 @@ Section Pruned.
       + intros Hc. apply (Hdis _ Hc). exact (leaf_in_flat_tbl r ids dir hard soft (S i) j e None d Ej).
   Qed.
 
+  (* walk_ports on one table, given what it does with the ports of the table while the
+     table's rSelf (if any) is enabled *)
+  Lemma table_self : forall l ids dir hard soft ptr sw,
+    In (dir, ptr, sw, option_map (fun v => dir ++ v) (self_sw l)) ds ->
+    self_ok l = true ->
+    NoDup (fpaths (flat_tbl ids dir hard (soft ++ self_soft dir l) l 0%nat)) ->
+    forallb (sw_on a s) hard = true -> forallb (sw_on a s) soft = true ->
+    (forallb (sw_on a s) (soft ++ self_soft dir l) = true ->
+     spec_pruned_table o ids dir (map sport_of l) 0%nat =
+     flat_map (live_reports a s) (flat_tbl ids dir hard (soft ++ self_soft dir l) l 0%nat)) ->
+    spec_pruned_tableS o ids dir (map sport_of l) =
+    flat_map (live_reports a s) (flat_tbl ids dir hard (soft ++ self_soft dir l) l 0%nat).
+  Proof.
+    intros l ids dir hard soft ptr sw Hin Hok Hn Hh Hs Hon.
+    destruct (oracle_dir _ _ _ _ Hin) as (_ & _ & Eself). unfold spec_pruned_tableS. rewrite Eself.
+    change (olist (option_map (fun v : list Z => dir ++ v) (self_sw l))) with (self_soft dir l).
+    destruct (forallb (sw_on a s) (self_soft dir l)) eqn:Es; cbn [negb].
+    - apply Hon. rewrite forallb_app, Hs. exact Es.
+    - unfold self_soft in *. destruct (self_sw l) as [x|] eqn:Esw; [|discriminate Es].
+      cbn [option_map olist forallb] in Es, Hn |- *. rewrite andb_true_r in Es.
+      destruct (self_toggle_ok l x dir Esw Hok) as (j & d & Ej & Et).
+      unfold spec_self. rewrite Et.
+      rewrite (only_switch_live l ids dir hard (soft ++ [dir ++ x]) 0 j x d Ej); try assumption.
+      + reflexivity.
+      + apply in_or_app. right. left. reflexivity.
+      + unfold soft_of. rewrite filter_app, forallb_app. fold (soft_of (dir ++ x) soft).
+        rewrite (soft_of_on _ _ _ Hs). cbn [filter]. rewrite (proj2 (streqb_true _ _) eq_refl). reflexivity.
+  Qed.
+
+  Lemma pruned_tbl_IH : forall l,
+    Forall (fun p => forall ids dir hard soft,
+              incl (dirs_pt dir p) ds -> sw_ok p = true ->
+              NoDup (fpaths (flat_pt ids dir hard soft p)) ->
+              forallb (sw_on a s) hard = true -> forallb (sw_on a s) soft = true ->
+              spec_pruned_port o ids dir (sport_of p) = flat_map (live_reports a s) (flat_pt ids dir hard soft p)) l ->
+    forall ids dir hard soft i,
+    incl (dirs_tbl dir l) ds -> forallb sw_ok l = true ->
+    NoDup (fpaths (flat_tbl ids dir hard soft l i)) ->
+    forallb (sw_on a s) hard = true -> forallb (sw_on a s) soft = true ->
+    spec_pruned_table o ids dir (map sport_of l) i = flat_map (live_reports a s) (flat_tbl ids dir hard soft l i).
+  Proof.
+    induction l as [|q r IH]; intros HF ids dir hard soft i Hds Hok Hn Hh Hs; [reflexivity|].
+    inversion HF as [|? ? Hq Hr]; subst.
+    cbn [forallb] in Hok. apply andb_true_iff in Hok. destruct Hok as [Hokq Hokr].
+    cbn [flat_tbl] in Hn. rewrite fpaths_app in Hn. destruct (nodup_app_disj _ _ _ Hn) as (Hn1 & Hn2 & _).
+    cbn [map spec_pruned_table flat_tbl]. rewrite flat_map_app.
+    rewrite <- (IH Hr); try assumption; [|intros e He; apply Hds; cbn [dirs_tbl]; apply in_or_app; right; exact He].
+    f_equal. apply Hq; try assumption.
+    intros e He. apply Hds. cbn [dirs_tbl]. apply in_or_app. left. exact He.
+  Qed.
+
   Lemma pruned_flat_pt : forall p ids dir hard soft,
     incl (dirs_pt dir p) ds -> sw_ok p = true ->
     NoDup (fpaths (flat_pt ids dir hard soft p)) ->
     forallb (sw_on a s) hard = true -> forallb (sw_on a s) soft = true ->
     spec_pruned_port o ids dir (sport_of p) = flat_map (live_reports a s) (flat_pt ids dir hard soft p).
   Proof.
-    induction p as [nm arr d|nm enum ptr sw sub IHs] using pt_ind2; intros ids dir hard soft Hds Hok Hn Hh Hs.
+    induction p as [nm arr d|nm enum ptr sw sub IHs|nm sw] using pt_ind2; intros ids dir hard soft Hds Hok Hn Hh Hs.
     - cbn [flat_pt flat_map]. rewrite app_nil_r. unfold live_reports, live_f. cbn [f_hard f_soft].
       rewrite Hh, (soft_of_on _ _ _ Hs). cbn [andb]. rewrite <- (app_nil_r (port_reports _)).
       change (port_reports {| f_id := ids; f_port := leaf_port (dir ++ nm) arr d;
@@ -460,51 +612,47 @@ Section Pruned.
     - cbn [sport_of]. rewrite spec_pruned_subtree, flat_pt_sub, flat_map_flat_map.
       rewrite dirs_pt_sub in Hds. rewrite flat_pt_sub, fpaths_flat_map in Hn.
       cbn [sw_ok] in Hok. apply andb_true_iff in Hok. destruct Hok as [Hsw Hoksub].
+      apply andb_true_iff in Hsw. destruct Hsw as [Hsw Hself].
       apply flat_map_ext_in'. intros x Hx.
       pose proof (nodup_flat_map_piece _ _ _ _ x Hn Hx) as Hnx.
-      assert (Hin : In (dir ++ x, option_map (fun g => dir ++ g) ptr, option_map (sw_addr dir (sub_name nm enum) x) sw) ds).
+      assert (Hin : In (dir ++ x, option_map (fun g => dir ++ g) ptr, option_map (sw_addr dir (sub_name nm enum) x) sw,
+                        option_map (fun v => (dir ++ x) ++ v) (self_sw sub)) ds).
       { apply Hds. apply in_flat_map. exists x. split; [exact Hx | left; reflexivity]. }
       assert (Hsubds : incl (dirs_tbl (dir ++ x) sub) ds).
       { intros e He. apply Hds. apply in_flat_map. exists x. split; [exact Hx | right; exact He]. }
-      destruct (oracle_dir _ _ _ Hin) as [En Ed]. unfold pruned, skipped_spec. rewrite En, Ed.
+      destruct (oracle_dir _ _ _ _ Hin) as (En & Ed & _). unfold pruned, skipped_spec. rewrite En, Ed.
       set (hard' := hard ++ olist (option_map (fun g => dir ++ g) ptr)) in *.
       set (soft' := soft ++ olist (option_map (sw_addr dir (sub_name nm enum) x) sw)) in *.
       match goal with |- context [negb ?X || negb ?Y] => destruct X eqn:Ep; [destruct Y eqn:Es|] end; cbn [negb orb andb].
-      + (* visited *)
+      + (* visited: walk_ports on the sub-table *)
         assert (Hh' : forallb (sw_on a s) hard' = true) by (unfold hard'; rewrite forallb_app, Hh; exact Ep).
         assert (Hs' : forallb (sw_on a s) soft' = true) by (unfold soft'; rewrite forallb_app, Hs; exact Es).
-        clear Hin Hds Hn Hsw. revert Hsubds Hnx. generalize 0%nat.
-        induction sub as [|q r IHr]; intros i Hsubds Hnx; [reflexivity|].
-        inversion IHs as [|? ? Hq Hr]; subst.
-        cbn [forallb] in Hoksub. apply andb_true_iff in Hoksub. destruct Hoksub as [Hokq Hokr].
-        cbn [flat_tbl] in Hnx. rewrite fpaths_app in Hnx. destruct (nodup_app_disj _ _ _ Hnx) as (Hn1 & Hn2 & _).
-        cbn [map spec_pruned_table flat_tbl]. rewrite flat_map_app.
-        rewrite <- (IHr Hr Hokr); [| |exact Hn2]; [|intros e He; apply Hsubds; cbn [dirs_tbl]; apply in_or_app; right; exact He].
-        f_equal. apply Hq; try assumption.
-        intros e He. apply Hsubds. cbn [dirs_tbl]. apply in_or_app. left. exact He.
+        apply (table_self sub ids (dir ++ x) hard' soft' _ _ Hin Hself Hnx Hh' Hs').
+        intros Hs''. apply (pruned_tbl_IH sub IHs); assumption.
       + (* 'enabled by' off: the walker is applied to the switch if it stands inside *)
         destruct sw as [g|]; [|discriminate Es].
         cbn [option_map olist forallb] in Es. rewrite andb_true_r in Es.
         apply andb_true_iff in Hsw. destruct Hsw as [Hnul Hform].
         cbn [render_port sub_meta]. rewrite (sub_toggle_meta _ g _ _ (nonul_b_nonul g Hnul)).
-        assert (Htg : In (sw_addr dir (sub_name nm enum) x g) soft')
-          by (unfold soft'; apply in_or_app; right; left; reflexivity).
+        assert (Htg : In (sw_addr dir (sub_name nm enum) x g) (soft' ++ self_soft (dir ++ x) sub))
+          by (unfold soft'; apply in_or_app; left; apply in_or_app; right; left; reflexivity).
         unfold sub_name in *. unfold sw_addr in *.
         destruct (subport_split (render_name (sub_segs nm enum) []) g) as [e|] eqn:Esp.
         * (* "name/tg" *)
-          unfold inner_ok, sports_of in Hform.
-          destruct (PathModel.index_op (map render_port (map sport_of sub)) e) as [j|]; [|discriminate Hform].
-          destruct (nth_error sub j) as [[nm' [n|] d'|nm' enum' ptr' sw' sub']|] eqn:Ej; try discriminate Hform.
-          apply andb_true_iff in Hform. destruct Hform as [Hname _]. apply streqb_true in Hname. subst nm'.
+          apply andb_true_iff in Hform. destruct Hform as [Hform Hboth].
+          destruct (inner_ok_leaf sub e Hform) as (j & d' & Ei & Ej). rewrite Ei.
           rewrite (app_assoc dir x e) in Es, Htg.
-          rewrite (only_switch_live sub ids (dir ++ x) hard' soft' 0 j e d' Ej Htg Es); try assumption.
+          rewrite (only_switch_live sub ids (dir ++ x) hard' (soft' ++ self_soft (dir ++ x) sub) 0 j e d' Ej Htg Es); try assumption.
           -- reflexivity.
           -- unfold hard'. rewrite forallb_app, Hh. exact Ep.
-          -- unfold soft', soft_of. cbn [option_map olist]. rewrite filter_app, forallb_app.
+          -- (* the toggles asked so far are on; the table's own rSelf names the same switch *)
+             unfold soft', soft_of, self_soft. cbn [option_map olist]. rewrite !filter_app, !forallb_app.
              fold (soft_of ((dir ++ x) ++ e) soft). rewrite (soft_of_on _ _ _ Hs). cbn [filter].
-             rewrite Esp, (app_assoc dir x e), (proj2 (streqb_true _ _) eq_refl). reflexivity.
+             rewrite Esp, (app_assoc dir x e), (proj2 (streqb_true _ _) eq_refl). cbn [negb forallb andb].
+             destruct (self_sw sub) as [x2|]; cbn [option_map olist filter]; [|reflexivity].
+             apply streqb_true in Hboth. subst x2. rewrite (proj2 (streqb_true _ _) eq_refl). reflexivity.
         * (* a toggle of the parent table: nothing below is live *)
-          symmetry. apply (dead_list _ soft' (dir ++ g)); try assumption.
+          symmetry. apply (dead_list _ (soft' ++ self_soft (dir ++ x) sub) (dir ++ g)); try assumption.
           -- intros f Hf. exact (proj2 (flat_tbl_incl _ _ _ _ _ _ _ Hf)).
           -- intros Hc. unfold fpaths in Hc. apply in_map_iff in Hc. destruct Hc as (f & Ef & Hf).
              destruct (flat_tbl_prefix _ _ _ _ _ _ _ Hf) as [r Hr]. rewrite Hr, <- app_assoc in Ef.
@@ -521,6 +669,13 @@ Section Pruned.
           { apply forallb_forall. intros g Hg. apply E. apply Hi. apply in_or_app. right. exact Hg. }
           assert (Hc : true = false) by exact (eq_trans (eq_sym Ep') Ep). discriminate. }
         rewrite E. reflexivity.
+    - cbn [flat_pt flat_map]. rewrite app_nil_r. unfold live_reports, live_f. cbn [f_hard f_soft].
+      rewrite Hh, (soft_of_on _ _ _ Hs). cbn [andb]. rewrite <- (app_nil_r (port_reports _)).
+      change (port_reports {| f_id := ids; f_port := leaf_port (dir ++ nm) None aux_ld;
+                              f_sel := None; f_hard := hard;
+                              f_soft := soft_of (dir ++ nm) soft |} ++ [])
+        with (flat_map port_reports (flat_pt ids dir hard soft (PAux nm sw))).
+      rewrite <- spec_flat_pt. reflexivity.
   Qed.
 
   Lemma pruned_flat_tbl : forall l ids dir hard soft i,
@@ -529,20 +684,50 @@ Section Pruned.
     forallb (sw_on a s) hard = true -> forallb (sw_on a s) soft = true ->
     spec_pruned_table o ids dir (map sport_of l) i = flat_map (live_reports a s) (flat_tbl ids dir hard soft l i).
   Proof.
-    induction l as [|q r IH]; intros ids dir hard soft i Hds Hok Hn Hh Hs; [reflexivity|].
-    cbn [forallb] in Hok. apply andb_true_iff in Hok. destruct Hok as [Hokq Hokr].
-    cbn [flat_tbl] in Hn. rewrite fpaths_app in Hn. destruct (nodup_app_disj _ _ _ Hn) as (Hn1 & Hn2 & _).
-    cbn [map spec_pruned_table flat_tbl]. rewrite flat_map_app.
-    rewrite <- IH; try assumption; [|intros e He; apply Hds; cbn [dirs_tbl]; apply in_or_app; right; exact He].
-    f_equal. apply pruned_flat_pt; try assumption.
-    intros e He. apply Hds. cbn [dirs_tbl]. apply in_or_app. left. exact He.
+    intros l. apply pruned_tbl_IH. apply Forall_forall. intros p _. apply pruned_flat_pt.
+  Qed.
+  (* wherever the oracle of the state answers "self: disabled", self_toggle finds the switch *)
+  Lemma selfs_ok_pt : forall p dir, incl (dirs_pt dir p) ds -> sw_ok p = true -> selfs_ok o dir (sport_of p).
+  Proof.
+    induction p as [nm arr d|nm enum ptr sw sub IHs|nm sw] using pt_ind2; intros dir Hds Hok; [exact I| |exact I].
+    cbn [sport_of selfs_ok]. intros x Hx. rewrite dirs_pt_sub in Hds.
+    cbn [sw_ok] in Hok. apply andb_true_iff in Hok. destruct Hok as [Hsw Hoksub].
+    apply andb_true_iff in Hsw. destruct Hsw as [_ Hself].
+    assert (Hin : In (dir ++ x, option_map (fun g => dir ++ g) ptr, option_map (sw_addr dir (sub_name nm enum) x) sw,
+                      option_map (fun v => (dir ++ x) ++ v) (self_sw sub)) ds).
+    { apply Hds. apply in_flat_map. exists x. split; [exact Hx | left; reflexivity]. }
+    assert (Hsubds : incl (dirs_tbl (dir ++ x) sub) ds).
+    { intros e He. apply Hds. apply in_flat_map. exists x. split; [exact Hx | right; exact He]. }
+    split.
+    - intros Hoff. destruct (oracle_dir _ _ _ _ Hin) as (_ & _ & Es). rewrite Es in Hoff.
+      destruct (self_sw sub) as [v|] eqn:Ev; [|discriminate Hoff].
+      destruct (self_toggle_ok sub v (dir ++ x) Ev Hself) as (j & d & _ & Et). rewrite Et. discriminate.
+    - apply selfs_all_forall. apply Forall_forall. intros q Hq. apply in_map_iff in Hq. destruct Hq as (p & <- & Hp).
+      rewrite Forall_forall in IHs. apply (IHs p Hp).
+      + intros e He. apply Hsubds. exact (dirs_tbl_in _ _ _ Hp e He).
+      + rewrite forallb_forall in Hoksub. exact (Hoksub p Hp).
+  Qed.
+
+  Lemma tbl_ok_table : forall l dir ptr sw,
+    In (dir, ptr, sw, option_map (fun v => dir ++ v) (self_sw l)) ds -> incl (dirs_tbl dir l) ds ->
+    self_ok l = true -> forallb sw_ok l = true -> tbl_ok o dir (map sport_of l).
+  Proof.
+    intros l dir ptr sw Hin Hds Hself Hok. split.
+    - intros Hoff. destruct (oracle_dir _ _ _ _ Hin) as (_ & _ & Es). rewrite Es in Hoff.
+      destruct (self_sw l) as [v|] eqn:Ev; [|discriminate Hoff].
+      destruct (self_toggle_ok l v dir Ev Hself) as (j & d & _ & Et). rewrite Et. discriminate.
+    - apply Forall_forall. intros q Hq. apply in_map_iff in Hq. destruct Hq as (p & <- & Hp).
+      apply selfs_ok_pt.
+      + intros e He. apply Hds. exact (dirs_tbl_in _ _ _ Hp e He).
+      + rewrite forallb_forall in Hok. exact (Hok p Hp).
   Qed.
 End Pruned.
 
 (* C12_walk_live_reports: walk_ports with the runtime object of state [st] calls the
    walker with the element addresses of exactly the live ports of app_of_tree, in the
    application's order.  A sub-tree whose inner switch ("name/tg") is off is not entered,
-   but the walker is applied to that switch: it is the one live port below. *)
+   but the walker is applied to that switch: it is the one live port below; likewise a
+   table whose rSelf names a toggle that is off. *)
 Theorem walk_live_reports : forall t st,
   names_ok (sports_of t) = true -> switches_ok t = true ->
   NoDup (map dir_addr (dirs_root t)) -> NoDup (map p_path (app_of_tree t)) ->
@@ -550,13 +735,18 @@ Theorem walk_live_reports : forall t st,
   WOk (flat_map (live_reports (app_of_tree t) st) (flat_root t)) [47].
 Proof.
   intros t st Hn Hsw Hnd Hpaths. destruct (names_ok_sound _ Hn) as (Hwf & _).
+  unfold switches_ok in Hsw. apply andb_true_iff in Hsw. destruct Hsw as [Hself Hsw].
   unfold walk. rewrite walk_port_empty_buf.
   change (Port [] None (Some (map render_port (sports_of t))))
     with (render_port (SPort [] [] None (Some (sports_of t)))).
-  rewrite (walk_pruned_wf (oracle_of (app_of_tree t) (dirs_root t) st) (fun _ => eq_refl) _ [] [47] [] [] None (sports_of t) eq_refl Hwf);
-    [| discriminate].
-  f_equal. unfold sports_of, flat_root. rewrite paths_app in Hpaths.
-  apply (pruned_flat_tbl _ st _ Hnd); [apply incl_refl | exact Hsw | exact Hpaths | reflexivity | reflexivity].
+  assert (Hroot : In ([47], @None str, @None str, option_map (fun v => [47] ++ v) (self_sw t)) (dirs_root t))
+    by (left; reflexivity).
+  assert (Hsub : incl (dirs_tbl [47] t) (dirs_root t)) by (intros e He; right; exact He).
+  rewrite (walk_pruned_wf (oracle_of (app_of_tree t) (dirs_root t) st) _ [] [47] [] [] None (sports_of t) eq_refl Hwf);
+    [| discriminate | exact (tbl_ok_table _ st _ Hnd t [47] None None Hroot Hsub Hself Hsw)].
+  f_equal. unfold sports_of. rewrite paths_app in Hpaths. unfold flat_root in Hpaths |- *.
+  apply (table_self (app_of_tree t) st (dirs_root t) Hnd t [] [47] [] [] None None Hroot Hself Hpaths eq_refl eq_refl).
+  intros Hs''. apply (pruned_flat_tbl _ st _ Hnd); try assumption. reflexivity.
 Qed.
 
 Lemma live_f_live : forall t st i f, nth_error (flat_root t) i = Some f ->
